@@ -127,7 +127,22 @@ def judge(case, m):
     other_used = [c for c in used if c not in numeric_used]
 
     def blank(col, rows):
-        if meta[col]["kind"] in ("int", "code", "bool", "nint", "nfloat"):
+        kind = meta[col]["kind"]
+        # nullable extension dtypes keep their dtype in half of the frames (the missing value is then pd.NA, and
+        # dtype.kind of the column is that of its payload: 'i', 'f', 'b'); plain int / bool columns become
+        # nullable Int64 / boolean in a third of the frames, float otherwise
+        keep = (case["frame"]["seed"] + len(col)) % 2 == 0
+        to_nullable = (case["frame"]["seed"] + len(col)) % 3 == 0
+        if kind in ("nint", "nfloat") and keep:
+            df.loc[df.index[rows], col] = pd.NA
+            m.note("missing-as-pd.NA:" + str(df[col].dtype))
+            return
+        if kind in ("int", "bool") and to_nullable:
+            df[col] = df[col].astype("Int64" if kind == "int" else "boolean")
+            df.loc[df.index[rows], col] = pd.NA
+            m.note("missing-as-pd.NA:" + str(df[col].dtype))
+            return
+        if kind in ("int", "code", "bool", "nint", "nfloat"):
             df[col] = df[col].astype(float)
         if isinstance(df[col].dtype, pd.CategoricalDtype):
             df[col] = df[col].astype(object).where(~df.index.isin(df.index[rows]), other=np.nan).astype(df[col].dtype)
